@@ -8,6 +8,7 @@ package query
 import (
 	"context"
 	"sync"
+	"time"
 
 	"github.com/mithrandie/csvq/lib/file"
 	"github.com/mithrandie/csvq/lib/option"
@@ -101,5 +102,17 @@ func verifIdOf(p value.Primary) int {
 		return -1
 	}
 	return int(p.(*value.Integer).Raw())
+}
+
+
+// churn takes objects out of every value pool and overwrites them: a value that was wrongly
+// discarded while still referenced is reissued here and changes under its owner's feet.
+func verifC14Churn() {
+	for k := 0; k < 6; k++ {
+		_ = value.NewInteger(int64(-7777 - k))
+		_ = value.NewFloat(-7777.5)
+		_ = value.NewString("~churn~")
+		_ = value.NewDatetime(time.Unix(0, 0))
+	}
 }
 
